@@ -750,8 +750,15 @@ async fn c13_poll<TC: Configuration>(cx: &mut Cx) {
         let eh = writer.publish(upd(&[(labels[1].clone(), vec![50 + k, 0])])).await.unwrap();
         match tokio::time::timeout(Duration::from_secs(5), rx.recv()).await {
             Ok(Some(())) => {
-                let got = reader.get_epoch_hash().await;
-                let lk = reader.lookup(AkdLabel(labels[1].clone())).await;
+                let both = tokio::time::timeout(Duration::from_secs(20), async { (reader.get_epoch_hash().await, reader.lookup(AkdLabel(labels[1].clone())).await) }).await;
+                let (got, lk) = match both {
+                    Ok(x) => x,
+                    Err(_) => {
+                        cx.fail(format!("C13 [cfg {}]: requests after a poll signal did not return within 20 s (requests and the poller block each other)", cfg));
+                        poller.abort();
+                        return;
+                    }
+                };
                 cx.stat("c13_poll_rounds");
                 match (got, lk) {
                     (Ok(g), Ok((_, le))) => {
@@ -852,8 +859,16 @@ async fn c13_poll_race<TC: Configuration>(cx: &mut Cx, k: usize, kind: u8) {
             cx.fail(format!("C13 {}: the overlapping request named (epoch {}, {}) which was never published", what, e, hx(hsh)));
         }
     }
-    // requests issued after the signal
-    match reader.get_epoch_hash().await {
+    // requests issued after the signal (with a time limit: a request that never returns is a failure, not a hang of the check)
+    let after = match tokio::time::timeout(Duration::from_secs(20), reader.get_epoch_hash()).await {
+        Ok(x) => x,
+        Err(_) => {
+            cx.fail(format!("C13 {}: get_epoch_hash after the poll signal did not return within 20 s (requests and the poller block each other)", what));
+            poller.abort();
+            return;
+        }
+    };
+    match after {
         Ok(g) => {
             if (g.0 as usize) >= hashes.len() || hashes[g.0 as usize] != g.1 {
                 cx.fail(format!("C13 {}: after the poll signal get_epoch_hash names (epoch {}, {}) which the directory never published (hash of that epoch: {})", what, g.0, hx(&g.1), hashes.get(g.0 as usize).map(|x| hx(x)).unwrap_or("none".into())));
@@ -864,7 +879,15 @@ async fn c13_poll_race<TC: Configuration>(cx: &mut Cx, k: usize, kind: u8) {
         Err(e) => cx.fail(format!("C13 {}: get_epoch_hash after the poll signal failed: {:?}", what, e)),
     }
     for l in [labels[0].clone(), labels[2].clone()] {
-        match reader.lookup(AkdLabel(l.clone())).await {
+        let lk = match tokio::time::timeout(Duration::from_secs(20), reader.lookup(AkdLabel(l.clone()))).await {
+            Ok(x) => x,
+            Err(_) => {
+                cx.fail(format!("C13 {}: a lookup after the poll signal did not return within 20 s (requests and the poller block each other)", what));
+                poller.abort();
+                return;
+            }
+        };
+        match lk {
             Ok((p, e)) => {
                 if (e.0 as usize) >= hashes.len() || hashes[e.0 as usize] != e.1 {
                     cx.fail(format!("C13 {}: after the poll signal a lookup names (epoch {}, {}) which was never published", what, e.0, hx(&e.1)));
@@ -962,7 +985,10 @@ fn c13_parallel<TC: Configuration>(cx: &mut Cx, publishes: usize, cached: bool, 
         done.store(true, Ordering::SeqCst);
         let mut all = vec![];
         for h in readers {
-            all.push(h.await.map_err(|e| e.to_string())?);
+            match tokio::time::timeout(Duration::from_secs(30), h).await {
+                Ok(x) => all.push(x.map_err(|e| e.to_string())?),
+                Err(_) => return Err("a request did not return within 30 s after the last publish (requests and the poller, or requests and the publisher, block each other)".to_string()),
+            }
         }
         if let Some(p) = poller {
             p.abort();
